@@ -95,7 +95,7 @@ def run(ctx, replay):
             print("ORACLE %s: %s" % (sig, msg))
             ctx.violation(msg, {"kind": "oracle", "case": c, "signature": sig, "case_line": mc.case_line(c)})
         return
-    n_rand, n_dir = (700, 150) if ctx.tier == "quick" else (14000, 2800)
+    n_rand, n_dir = (2500, 500) if ctx.tier == "quick" else (14000, 2800)
     cases = [dict(mc.gen_c19(ctx.rng), log=1) for _ in range(n_rand)]
     cases += [dict(corner_rush(ctx.rng, ctx.rng.choice(mc.ALGOS)), log=1) for _ in range(n_dir)]
     first_order = [a for a in mc.ALGOS if not a.startswith("Levenberg")]
